@@ -23,6 +23,7 @@ type Failure struct {
 	Values  []string // terms worth asking a model for
 	Race    *RaceResult
 	File    string
+	NDecls  int // declarations / axioms that existed when the query was made (0: all)
 }
 
 type Oblig struct {
@@ -57,6 +58,7 @@ type Unit struct {
 	lits           map[string]Term
 	litVal         map[string]string // literal constant name -> its text
 	havocSeq       int
+	deadPath       bool // set when a panic-class obligation failed on the current path
 	ifacesSeen     map[string]types.Type
 	typesSeen      map[string]types.Type
 	uncontracted   map[string]*ssa.Function // functions of the module called here that have no contract
@@ -472,7 +474,13 @@ func (u *Unit) Prove(st *State, name, class string, tags []string, pos token.Pos
 		st.Assume(goal)
 		return true
 	}
-	f := &Failure{Asserts: append(append([]string(nil), st.PCs...), Not(goal).String()), Goal: goal.String(), Result: r, Trace: append([]string(nil), st.Trace...)}
+	f := &Failure{Asserts: append(append([]string(nil), st.PCs...), Not(goal).String()), Goal: goal.String(), Result: r, Trace: append([]string(nil), st.Trace...), NDecls: len(u.decls)}
+	switch class {
+	case "bounds", "nilmap", "div0", "typeassert", "makeslice", "chan-closed":
+		// the real program panics here: what follows on this path is not a reachable
+		// state, and facts derived from it must not leak into other queries
+		u.deadPath = true
+	}
 	for _, v := range values {
 		f.Values = append(f.Values, v.String())
 		if v.Sort == SStr {
